@@ -71,6 +71,121 @@ fn outcome_json(r: &Value, nenvs: usize) -> Value {
     )
 }
 
+/// UseLadder: the second parameter reaches the result through every chain of one or two binding / calling /
+/// branching constructs (let, let*, assign, inline call, function call, lambda capture, lambda argument, if with a
+/// constant or a parameter condition, list).  Every construct handles names in its own way in the front end, the
+/// evaluator and the code generator; a name lost along any chain changes the result.
+pub fn use_ladder(lower: bool) -> Vec<(Program, Vec<V>)> {
+    use crate::ast::{Expr, Helper, Pat};
+    let (p1, p2) = if lower { ("p1", "p2") } else { ("P1", "P2") };
+    let v = |n: &str| Expr::Var(n.to_string());
+    let pv = |n: &str| Pat::Var(n.to_string());
+    let nwrap = 10;
+    let wrap = |k: usize, e: Expr, ctr: &mut usize| -> Expr {
+        *ctr += 1;
+        let (l, m) = (format!("L{}", *ctr * 2), format!("L{}", *ctr * 2 + 1));
+        match k {
+            0 => Expr::Let(false, vec![(l.clone(), e)], Box::new(v(&l))),
+            1 => Expr::Let(true, vec![(l.clone(), e), (m.clone(), v(&l))], Box::new(v(&m))),
+            2 => Expr::Assign(vec![(Pat::Cons(Box::new(pv(&l)), Box::new(pv(&m))), Expr::Prim(4, vec![e, Expr::Lit(V::int(1))]))], Box::new(v(&l))),
+            3 => Expr::Call("inl1".into(), vec![e], None),
+            4 => Expr::Call("fun2".into(), vec![e], None),
+            5 => Expr::Let(false, vec![(l.clone(), e)], Box::new(Expr::Apply(Box::new(Expr::Lambda(vec![l.clone()], Pat::list(vec![pv(&m)], Pat::Nil), Box::new(v(&l)))), Box::new(Expr::List(vec![Expr::Lit(V::int(1))]))))),
+            6 => Expr::Apply(Box::new(Expr::Lambda(vec![], Pat::list(vec![pv(&m)], Pat::Nil), Box::new(v(&m)))), Box::new(Expr::List(vec![e]))),
+            7 => Expr::If(Box::new(Expr::Lit(V::int(1))), Box::new(e), Box::new(Expr::Lit(V::int(0)))),
+            8 => Expr::If(Box::new(v(p1)), Box::new(e), Box::new(Expr::Lit(V::int(0)))),
+            _ => Expr::Prim(5, vec![Expr::List(vec![e])]),
+        }
+    };
+    let helpers = vec![
+        Helper::Defun { name: "inl1".into(), pat: Pat::list(vec![pv("A")], Pat::Nil), body: v("A"), inline: true },
+        Helper::Defun { name: "fun2".into(), pat: Pat::list(vec![pv("B")], Pat::Nil), body: v("B"), inline: false },
+    ];
+    let args = Pat::list(vec![pv(p1), pv(p2)], Pat::Nil);
+    let envs = vec![V::list(&[V::int(1), V::int(700)]), V::list(&[V::int(3), V::list(&[V::int(1), V::int(2)])]), V::list(&[V::nil(), V::int(9)])];
+    let mut out = vec![];
+    for a in 0..nwrap {
+        for b in (0..=nwrap).rev() {
+            let mut ctr = 0;
+            let inner = wrap(a, v(p2), &mut ctr);
+            let e = if b == nwrap { inner } else { wrap(b, inner, &mut ctr) };
+            let uses_helpers = [a, b].iter().any(|k| *k == 3 || *k == 4);
+            out.push((Program { args: args.clone(), helpers: if uses_helpers { helpers.clone() } else { vec![] }, body: Expr::Prim(4, vec![v(p1), e]) }, envs.clone()));
+        }
+    }
+    out
+}
+
+/// RestLadder + AssignLadder.
+/// RestLadder: a function / inline function of 2..5 parameters called with k positional arguments and the remaining
+/// ones through &rest (a parameter holding the list, or a list expression).
+/// AssignLadder: an assign form destructuring a parameter with every small shape, returning every name.
+pub fn rest_and_assign_ladders() -> Vec<(Program, Vec<V>)> {
+    use crate::ast::{Expr, Helper, Pat};
+    let v = |n: &str| Expr::Var(n.to_string());
+    let pv = |n: &str| Pat::Var(n.to_string());
+    let mut out = vec![];
+    let names = ["A", "B", "C", "D", "E"];
+    for np in 2..=5usize {
+        for k in 0..np {
+            for inline in [false, true] {
+                for as_list in [false, true] {
+                    let fpat = Pat::list(names[..np].iter().map(|n| pv(n)).collect(), Pat::Nil);
+                    let body = Expr::List(names[..np].iter().map(|n| v(n)).collect());
+                    let positional: Vec<Expr> = (0..k).map(|i| Expr::Lit(V::int(900 + i as i64))).collect();
+                    let missing = np - k;
+                    let rest = if as_list { Expr::List((0..missing).map(|i| Expr::Prim(16, vec![v("P"), Expr::Lit(V::int(i as i64))])).collect()) } else { v("Q") };
+                    let p = Program { args: Pat::list(vec![pv("P"), pv("Q")], Pat::Nil),
+                        helpers: vec![Helper::Defun { name: "pick".into(), pat: fpat, body, inline }],
+                        body: Expr::Call("pick".into(), positional, Some(Box::new(rest))) };
+                    let qlist = V::list(&(0..missing).map(|i| V::int(3000 + i as i64)).collect::<Vec<_>>());
+                    let qlong = V::list(&(0..missing + 2).map(|i| V::int(4000 + i as i64)).collect::<Vec<_>>());
+                    out.push((p, vec![V::list(&[V::int(10), qlist]), V::list(&[V::int(20), qlong])]));
+                }
+            }
+        }
+    }
+    let shapes: Vec<(Pat, Vec<&str>)> = vec![
+        (Pat::Cons(Box::new(pv("A")), Box::new(pv("B"))), vec!["A", "B"]),
+        (Pat::list(vec![pv("A"), pv("B"), pv("C")], Pat::Nil), vec!["A", "B", "C"]),
+        (Pat::list(vec![Pat::list(vec![pv("A"), pv("B")], Pat::Nil), pv("C")], Pat::Nil), vec!["A", "B", "C"]),
+        (Pat::list(vec![pv("A"), pv("B")], pv("C")), vec!["A", "B", "C"]),
+        (Pat::list(vec![pv("A"), Pat::list(vec![pv("B"), pv("C")], Pat::Nil)], Pat::Nil), vec!["A", "B", "C"]),
+        (Pat::Cons(Box::new(Pat::Cons(Box::new(pv("A")), Box::new(pv("B")))), Box::new(pv("C"))), vec!["A", "B", "C"]),
+        (Pat::Cons(Box::new(pv("A")), Box::new(Pat::Cons(Box::new(pv("B")), Box::new(pv("C"))))), vec!["A", "B", "C"]),
+        (Pat::list(vec![Pat::list(vec![pv("A"), pv("B"), pv("C")], Pat::Nil), pv("D")], Pat::Nil), vec!["A", "B", "C", "D"]),
+    ];
+    fn witness(p: &Pat, k: &mut i64) -> V {
+        match p {
+            Pat::Nil => V::nil(),
+            Pat::Var(_) | Pat::At(_, _) => {
+                *k += 1001;
+                V::int(*k)
+            }
+            Pat::Cons(a, b) => {
+                let l = witness(a, k);
+                let r = witness(b, k);
+                V::cons(l, r)
+            }
+        }
+    }
+    for (shape, ns) in shapes {
+        let mut k = 0;
+        let arg = witness(&shape, &mut k);
+        let body = Expr::Assign(vec![(shape.clone(), v("P"))], Box::new(Expr::List(ns.iter().map(|n| v(n)).collect())));
+        // directly, inside a function, inside an inline function
+        let direct = Program { args: Pat::list(vec![pv("P")], Pat::Nil), helpers: vec![], body: body.clone() };
+        out.push((direct, vec![V::list(&[arg.clone()])]));
+        for inline in [false, true] {
+            let p = Program { args: Pat::list(vec![pv("Q")], Pat::Nil),
+                helpers: vec![Helper::Defun { name: "take".into(), pat: Pat::list(vec![pv("P")], Pat::Nil), body: body.clone(), inline }],
+                body: Expr::Call("take".into(), vec![v("Q")], None) };
+            out.push((p, vec![V::list(&[arg.clone()])]));
+        }
+    }
+    out
+}
+
 pub fn gen_opts(profile: &str) -> GenOpts {
     match profile {
         "core" => GenOpts::core(),
@@ -210,6 +325,10 @@ pub fn drive(args: &HashMap<String, String>) {
                 }
             }
         }
+    }
+    if profile == "ladder" {
+        progs.extend(use_ladder(false));
+        progs.extend(rest_and_assign_ladders());
     }
     for i in 0..(if profile == "ladder" { 0 } else { n }) {
         // alternate small / full programs
